@@ -7,6 +7,9 @@ Kernels: the real Pidfile.create / validate / unlink / rename on the FS stub (en
               complete content or the new complete content, never anything else
   3 unlink    removes the file only if it still contains the instance's own pid; never raises
   4 rename    old path released only if owned, new path created under the same rules
+  6 race      two instances run create() concurrently, preempted before every mutating system call in a solver-chosen order
+              (real threads, one running at a time): the path only ever shows the initial or a complete content, no
+              temporary file or descriptor is left, each instance that did not refuse believes it wrote the file
   5 history   <=3 operations by two instances (pids a, b) on one path incl. owner death: no instance ever removes the
               other's file, no instance takes the path from a live other instance, content is always complete
 """
@@ -17,13 +20,15 @@ setup(shim=False)
 
 import gunicorn.pidfile as P  # noqa: E402
 from engine.stubs.fs import FS, Crash, install  # noqa: E402
+from engine.stubs.sched import Interleaver  # noqa: E402
 
 PROPERTY = "C17"
 CASE = {}
 KERNELS = ["gunicorn.pidfile:Pidfile.create", "gunicorn.pidfile:Pidfile.validate", "gunicorn.pidfile:Pidfile.unlink",
            "gunicorn.pidfile:Pidfile.rename"]
-STUBS = ["engine/stubs/fs.py: flat path->bytes store, kill(pid,0) liveness table, crash-before-the-k-th-mutating-call, "
-         "atomic rename, all-or-nothing write"]
+STUBS = ["engine/stubs/fs.py: path->inode->bytes store with descriptors bound to inodes, kill(pid,0) liveness table, "
+         "crash-before-the-k-th-mutating-call, atomic rename, all-or-nothing write, O_CREAT/O_EXCL/O_TRUNC open",
+         "engine/stubs/sched.py: deterministic interleaver (threads resumed one at a time at mutating-syscall boundaries)"]
 ASSUMPTIONS = ["pids are small positive ints; pid reuse does not happen inside one history",
                "the pid handed to create() is the caller's own pid (arbiter.py always passes os.getpid())"]
 OUTSIDE = ["partial write(2)", "NFS rename semantics", "pid reuse"]
@@ -166,7 +171,7 @@ def rename(kind: int, n: int, own: int, kind2: int, n2: int, live2: int) -> bool
     fs = mk_fs(kind, n, 1, own)
     c2 = content(kind2, n2)
     if c2 is not None:
-        fs.files[NEW] = c2
+        fs.put(NEW, c2)
     if live2 == 1:
         fs.alive.add(n2)
     elif live2 == 2 and n2 not in fs.alive:
@@ -261,6 +266,87 @@ def history_twin(ops: List[int]) -> bool:
     return list(ops)[:3] != [0, 4, 1]
 
 
+# ---- 6. two concurrent create() calls -----------------------------------------------------------------------------------
+def run_race(order, stale):
+    """concrete: returns the list of problems seen"""
+    a, b = 2, 3
+    fs = FS({PATH: b"9\n"} if stale else {}, alive={a, b}, pid=a)
+    initial = fs.files.get(PATH)
+    ok = (initial, b"2\n", b"3\n")
+    il = Interleaver(["A", "B"])
+    pid = {"A": a, "B": b}
+    bad = []
+    refused = {}
+
+    def task(n):
+        def f():
+            try:
+                P.Pidfile(PATH).create(pid[n])
+                refused[n] = False
+            except RuntimeError:
+                refused[n] = True
+        return f
+
+    def resume(n):
+        fs.pid = pid[n]
+
+    def observe(n):
+        if fs.files.get(PATH) not in ok:
+            bad.append(("content", list(il.trace), fs.files.get(PATH)))
+
+    fs.before_mutating = il.yield_point
+    undo = install(P, fs)
+    try:
+        res, exc = il.run({"A": task("A"), "B": task("B")}, ["A" if o else "B" for o in order], resume, observe)
+    finally:
+        undo()
+    if exc:
+        bad.append(("exception", {k: repr(v) for k, v in exc.items()}))
+    if set(fs.paths) != {PATH} or fs.fds:
+        bad.append(("left behind", sorted(fs.paths), dict(fs.fds)))
+    final = fs.files.get(PATH)
+    winners = [("%d\n" % pid[n]).encode() for n in ("A", "B") if refused.get(n) is False]
+    if final not in winners:
+        bad.append(("final content names nobody who succeeded", final, refused))
+    return bad
+
+
+def race(order: List[int], stale: bool) -> bool:
+    """
+    pre: len(order) == CASE["n"]
+    pre: all(0 <= o <= 1 for o in order)
+    post: __return__
+    """
+    from crosshair.tracers import NoTracing
+    order = [pick(o, 0, 1) for o in order]
+    stale = bool(pick(int(stale), 0, 1))
+    with NoTracing():
+        return not run_race(order, stale)
+
+
+def race_twin(order: List[int], stale: bool) -> bool:
+    """
+    pre: len(order) == CASE["n"]
+    pre: all(0 <= o <= 1 for o in order)
+    post: __return__
+    """
+    from crosshair.tracers import NoTracing
+    order = [pick(o, 0, 1) for o in order]
+    with NoTracing():
+        a, b = 2, 3
+        fs = FS({}, alive={a, b}, pid=a)
+        il = Interleaver(["A", "B"])
+        fs.before_mutating = il.yield_point
+        undo = install(P, fs)
+        try:
+            il.run({"A": lambda: P.Pidfile(PATH).create(a), "B": lambda: P.Pidfile(PATH).create(b)},
+                   ["A" if o else "B" for o in order], lambda n: setattr(fs, "pid", {"A": a, "B": b}[n]))
+        finally:
+            undo()
+        # witness: a genuinely interleaved run (A, B, A, B at the first four resumptions) in which both created the file
+        return not (il.trace[:4] == ["A", "B", "A", "B"] and not il.exc)
+
+
 OBLIGATIONS = [
     Ob("C17.create", "create", timeout=600, bound="file state {absent,'N\\n','N',garbage,empty} x N,own in 1..4 x liveness{dead,alive,EPERM}"),
     Ob("C17.crash", "crash", timeout=600, bound="crash before each of the first 7 mutating system calls of create(), all file states"),
@@ -269,5 +355,8 @@ OBLIGATIONS = [
     Ob("C17.rename", "rename", timeout=1200, bound="all file states at the old and the new path x liveness of the new path's pid"),
     Ob("C17.history", "history", cases={"quick": [{"n": 3}], "thorough": [{"n": 4}, {"n": 5}]}, timeout={"quick": 600, "thorough": 2400},
        bound="histories of 3 (thorough 4, 5) operations from {A.create, B.create, A.unlink, B.unlink, A dies, B dies} on one path"),
+    Ob("C17.race", "race", cases={"quick": [{"n": 8}], "thorough": [{"n": 12}]}, timeout={"quick": 600, "thorough": 2400},
+       bound="2 instances x every order of the first 8 (thorough 12: all) resumptions at mutating-syscall boundaries x path initially absent / stale"),
+    Ob("C17.race.twin", "race_twin", cases=[{"n": 4}], expect="refute", timeout=120),
     Ob("C17.history.twin", "history_twin", cases=[{"n": 3}], expect="refute", timeout=120),
 ]
